@@ -144,6 +144,8 @@ func runC17(c *Ctx) {
 
 	c.rule("C17.P1", "a goroutine that exits on shutdown leaves no lock behind (the next taker, and with it every join in Stop, would block for ever): "+rootPairingDoc, func() { c.rootPairing() })
 
+	c.rule("C17.V1", "no batch is left without a verdict at shutdown (its caller, e.g. a UTXO scan that Stop waits for, would never return): "+batchRendezvousDoc, func() { c.batchRendezvous() })
+
 	c.rule("C17.X1", "query/reply rendezvous: handleQuery sends exactly one reply on every path of every case that carries a reply channel; each requester receives only after its hand-off to peerHandler succeeded (the quit arm returns); peerHandler's shutdown drain cannot complete a hand-off (it polls with a default arm)", func() {
 		fn := c.fn("(*neutrino.ChainService).handleQuery")
 		n := 0
